@@ -383,7 +383,11 @@ func (cc *connectUnaryClientConn) validateResponse(response *http.Response) *Err
 		cc.responseTrailer[strings.TrimPrefix(k, connectUnaryTrailerPrefix)] = v
 	}
 	compression := response.Header.Get(connectUnaryHeaderCompression)
-	if compression != "" &&
+	// Only a successful response must be decodable. An error response in an
+	// encoding we don't know (an HTML page from a proxy, say) carries no Connect
+	// error: below, it's reported with the code derived from the HTTP status.
+	if response.StatusCode == http.StatusOK &&
+		compression != "" &&
 		compression != compressionIdentity &&
 		!cc.compressionPools.Contains(compression) {
 		return errorf(
